@@ -2,6 +2,11 @@
 signals.  JSON cases on stdin -> JSON results on stdout.
 
   ["button", has_callback, [levels...]]  -> {"calls": [[clicked, result], ...]}   one is_pressed() per level
+  ["hist", h, provider, [provider values...], [["set", v] | ["poll"] ...]]
+        -> {"calls": [[event...] per op], "ok": bool}   whole call history of one Button: h = -1 no on_click, n >= 0 an on_click
+           handler that calls b.is_pressed() n times; provider: a state_provider is given (returns the listed values call after
+           call, the last one repeats; none: False); event [0] = on_click entered, [1, r] = an is_pressed() call returned r;
+           ok = False: the last listed call raised RecursionError (the history stops there)
   ["pot", [values...]]                   -> {"values": [...], "provider_calls": n}   one read() per value
   ["ultra", [[num, den] ...]]            -> {"values": [...]}                        one measure_distance() per distance
 """
@@ -30,6 +35,53 @@ def do_button(has_cb, levels):
             r = b.is_pressed()
             calls.append([clicks[0] - before, r])
         return {"status": "ok", "calls": calls}
+    except Exception as e:  # noqa
+        return {"status": "exc", "exc": type(e).__name__}
+
+
+def do_hist(h, provider, pvals, ops):
+    log = []
+    np_ = [0]
+
+    def prov():
+        k = np_[0]
+        np_[0] += 1
+        if not pvals:
+            return False
+        return pvals[k] if k < len(pvals) else pvals[-1]
+
+    def poll():
+        r = b.is_pressed()
+        log.append([1, r])
+        return r
+
+    def cb():
+        log.append([0])
+        for _ in range(h):
+            poll()
+
+    try:
+        kw = {}
+        if h >= 0:
+            kw["on_click"] = cb
+        if provider:
+            kw["state_provider"] = prov
+        b = Button(7, **kw)
+        calls = []
+        for op in ops:
+            del log[:]
+            if op[0] == "set":
+                r = b.set_pressed(op[1])
+                if r is not None:
+                    return {"status": "exc", "exc": "set_pressed returned " + repr(r)}
+            else:
+                try:
+                    poll()
+                except RecursionError:
+                    calls.append(list(log))
+                    return {"status": "ok", "calls": calls, "ok": False}
+            calls.append(list(log))
+        return {"status": "ok", "calls": calls, "ok": True}
     except Exception as e:  # noqa
         return {"status": "exc", "exc": type(e).__name__}
 
@@ -70,6 +122,8 @@ def main():
     for c in req["cases"]:
         if c[0] == "button":
             out.append(do_button(c[1], c[2]))
+        elif c[0] == "hist":
+            out.append(do_hist(c[1], c[2], c[3], c[4]))
         elif c[0] == "pot":
             out.append(do_pot(c[1]))
         elif c[0] == "ultra":
